@@ -152,7 +152,7 @@ class Exec(StmtMixin):
         if res.ty == PYOBJ and res.t.kind == "awaited":
             res = res.t.value
         if c.ret is not None and res.ty != PYOBJ:
-            cv = T.coerce(res, c.ret)
+            cv = self.coerce_to(st, res, c.ret, "result")
             if cv is None:
                 raise Unsupported("%s returns %s where the contract says %s" % (c.qual, res.ty, c.ret))
             res = cv
